@@ -27,8 +27,11 @@ echo "CONFIRM $ID demo-without:      $without"
 # 3. run my checks against it
 cd /repo && git diff --quiet || { echo "/repo not clean"; exit 2; }
 git -C /repo apply $S/patch.diff || { echo "patch does not apply to /repo"; exit 2; }
+# evidence written while a seeded change is applied must not replace the evidence of the unchanged tree
+rm -rf /tmp/evidence.hold && cp -r /verif/evidence /tmp/evidence.hold
 for c in "$@"; do
   out=$(cd /verif && ./check $c quick 2>&1 | grep -E "signature:|INCONCLUSIVE" | head -4 | cut -c1-160 | tr '\n' ';')
   echo "DETECT $ID by $c: ${out:-NOT DETECTED}"
 done
 git -C /repo checkout -- .
+cp /tmp/evidence.hold/*.json /verif/evidence/ && rm -rf /tmp/evidence.hold
